@@ -6,7 +6,7 @@ def units(tier):
     nmax, steps = (2, 2) if q else (4, 3)
     uw = nmax + 3
     E = lambda n, d, **kw: Entry(n, unwind=uw, desc=d, bounds="sizes 0..%d, history length %d, unwind %d" % (nmax, steps, uw),
-                                 timeout=300 if q else 1500, **kw)
+                                 timeout=300 if q else 2400, **kw)
     entries = [
         E("vp_main_at_int", "AbstractArray<int>::at/size/data/begin/end/bool from arbitrary (ptr,n), full 64-bit index"),
         E("vp_main_at_u8", "same, uint8_t"),
